@@ -958,14 +958,16 @@ Qed.
 Lemma tyr_lt : forall t, tyr t < 7.
 Proof. destruct t; cbn; lia. Qed.
 
+Ltac f2 := repeat (apply Forall2_cons; [lia|]); apply Forall2_nil.
+
 Lemma cC_bounded : forall s, Forall2 lt (cC D s) bsC.
 Proof.
   intros s. unfold cC, cfl, fpre, bsC.
   pose proof (nv_le (k_cmd (k s))). pose proof (tyr_lt (k_type (k s))).
   pose proof (frank_lt (asz_of D) true (k_wstate (k s)) (k_wbuf (k s)) (k_position (k s))).
   pose proof (frank_lt (asz_of D) false (k_wstate (k s)) (k_wbuf (k s)) (k_position (k s))).
-  destruct (k_state (k s)); try (repeat constructor; lia);
-    destruct (k_wafter (k s)); cbn [app]; repeat constructor; lia.
+  destruct (k_state (k s)); try solve [f2];
+    destruct (k_wafter (k s)); cbn [app]; f2.
 Qed.
 
 Lemma cU_bounded : forall s, Forall2 lt (cU D s) bsU.
@@ -974,8 +976,8 @@ Proof.
   pose proof (nv_le (u_cmd (u s))).
   pose proof (frank_lt (usz_of D) true (u_wstate (u s)) (u_wbuf (u s)) (u_position (u s))).
   pose proof (frank_lt (usz_of D) false (u_wstate (u s)) (u_wbuf (u s)) (u_position (u s))).
-  destruct (u_state (u s)); try (repeat constructor; lia);
-    destruct (u_wafter (u s)); cbn [app]; repeat constructor; lia.
+  destruct (u_state (u s)); try solve [f2];
+    destruct (u_wafter (u s)); cbn [app]; f2.
 Qed.
 
 (* ranks as numbers *)
